@@ -79,7 +79,10 @@ def caps():
             trait = tr.group(1) if tr else ""
             if trait.endswith("ErrorType"):
                 continue
-            for fn in re.findall(r"(?:pub\s+)?(?:async\s+)?fn\s+(\w+)", body):
+            # the operations a user can call: public inherent methods, and every method of a trait impl
+            # (private helpers of an inherent impl are not operations)
+            pat = r"(?:pub\s+)?(?:async\s+)?fn\s+(\w+)" if trait else r"pub\s+(?:async\s+)?fn\s+(\w+)"
+            for fn in re.findall(pat, body):
                 if fn == "new":
                     continue
                 name = (trait + "::" if trait else owner + "::") + fn
